@@ -257,7 +257,7 @@ func runFresh(c *Ctx, r *Reporter) {
 		}
 		sf := p.SSAFunc(fd.Obj)
 		n := 0
-		for _, fn := range withAnon(sf) {
+		for _, fn := range regionFns(sf, 3, dispatcherNames) { // the function and the helpers extracted from it
 			for _, b := range fn.Blocks {
 				for _, ins := range b.Instrs {
 					a, ok := ins.(*ssa.Alloc)
@@ -278,6 +278,22 @@ func runFresh(c *Ctx, r *Reporter) {
 					switch v := val.(type) {
 					case *ssa.Alloc: // &elements : pointer to local slice variable
 						fresh = allocStoresFresh(v, 0)
+					case *ssa.Call: // a helper that returns a pointer to a slice it allocated
+						if sc := v.Call.StaticCallee(); sc != nil && sc.Blocks != nil && sc.Pkg == fn.Pkg {
+							if _, isPtr := v.Type().Underlying().(*types.Pointer); isPtr {
+								fresh = true
+								for _, ret := range returnsOf(sc) {
+									for _, rv := range resultValues(ret, 0) {
+										ra, ok := rv.(*ssa.Alloc)
+										if !ok || !allocStoresFresh(ra, 0) {
+											fresh = false
+										}
+									}
+								}
+							} else {
+								fresh = isFreshSlice(val, 0)
+							}
+						}
 					default:
 						fresh = isFreshSlice(val, 0)
 					}
@@ -391,15 +407,57 @@ func runFresh(c *Ctx, r *Reporter) {
 			}
 			i++
 			construct := fmt.Sprintf("%s#result[%d]", fd.QName(), i)
-			okv := false
 			why := "result is neither a new arrayVal nor the result of Copy()"
-			switch x := v.(type) {
-			case *ssa.Alloc:
-				okv = true
-			case *ssa.Call:
-				okv = x.Call.StaticCallee() == copySSA
+			var freshResult func(v ssa.Value, depth int) bool
+			freshResult = func(v ssa.Value, depth int) bool {
+				if depth > 4 {
+					return false
+				}
+				v = stripValue(v)
+				switch x := v.(type) {
+				case *ssa.Alloc:
+					return true
+				case *ssa.Extract:
+					if c, ok := x.Tuple.(*ssa.Call); ok && x.Index == 0 {
+						return freshResult(c, depth)
+					}
+				case *ssa.Phi:
+					for _, e := range x.Edges {
+						if k, ok := e.(*ssa.Const); ok && k.IsNil() {
+							continue
+						}
+						if !freshResult(e, depth+1) {
+							return false
+						}
+					}
+					return true
+				case *ssa.Call:
+					sc := x.Call.StaticCallee()
+					if sc == copySSA {
+						return true
+					}
+					if sc != nil && sc.Blocks != nil && sc.Pkg == sf.Pkg && !dispatcherNames[sc.Name()] {
+						any := false
+						for _, r2 := range returnsOf(sc) {
+							if len(r2.Results) == 0 {
+								return false
+							}
+							for _, rv := range resultValues(r2, 0) {
+								if k, ok := stripValue(rv).(*ssa.Const); ok && k.IsNil() {
+									continue
+								}
+								any = true
+								if !freshResult(rv, depth+1) {
+									return false
+								}
+							}
+						}
+						return any
+					}
+				}
+				return false
 			}
-			r.Check(okv, construct, p.Rel(instrPos(ret)), "array operator returns a fresh container", why)
+			r.Check(freshResult(v, 0), construct, p.Rel(instrPos(ret)), "array operator returns a fresh container", why)
 		}
 		// the repetition case never uses the shallow Copy: nested composites must be copied too
 		info := pkg.TypesInfo
@@ -425,7 +483,11 @@ func runFresh(c *Ctx, r *Reporter) {
 		}
 		// appends in this function: every appended operand comes from Copy()/deepCopy
 		j := 0
-		for _, b := range sf.Blocks {
+		var regionBlocks []*ssa.BasicBlock
+		for _, f2 := range regionFns(sf, 2, map[string]bool{"eval": true, "Compile": true, "format": true, "deepCopy": true, "Copy": true, "copyOrRef": true}) {
+			regionBlocks = append(regionBlocks, f2.Blocks...)
+		}
+		for _, b := range regionBlocks {
 			for _, ins := range b.Instrs {
 				call, ok := ins.(*ssa.Call)
 				if !ok {
@@ -749,6 +811,51 @@ func runMapEnc(c *Ctx, r *Reporter) {
 		return
 	}
 	mutators := map[string]bool{"(*mapVal).SetKey": true, "(*mapVal).Delete": true, "(*mapVal).Set": true}
+	// helpers that are called from mutators only (an extracted removeFromOrder, say) belong to the mutators
+	{
+		callers := map[*ssa.Function]map[*ssa.Function]bool{}
+		byName := map[*ssa.Function]string{}
+		for _, fd := range Funcs(pkg) {
+			sf := p.SSAFunc(fd.Obj)
+			if sf == nil {
+				continue
+			}
+			byName[sf] = fd.Name()
+			for _, fn := range withAnon(sf) {
+				for _, b := range fn.Blocks {
+					for _, ins := range b.Instrs {
+						if ci, ok := ins.(ssa.CallInstruction); ok {
+							if sc := ci.Common().StaticCallee(); sc != nil && sc.Pkg == sf.Pkg {
+								if callers[sc] == nil {
+									callers[sc] = map[*ssa.Function]bool{}
+								}
+								callers[sc][sf] = true
+							}
+						}
+					}
+				}
+			}
+		}
+		for changed := true; changed; {
+			changed = false
+			for callee, cs := range callers {
+				name := byName[callee]
+				if name == "" || mutators[name] {
+					continue
+				}
+				all := len(cs) > 0
+				for c := range cs {
+					if !mutators[byName[c]] {
+						all = false
+					}
+				}
+				if all {
+					mutators[name] = true
+					changed = true
+				}
+			}
+		}
+	}
 	n := 0
 	for _, fd := range Funcs(pkg) {
 		sf := p.SSAFunc(fd.Obj)
@@ -886,7 +993,7 @@ func readsMapValField(fn *ssa.Function, pkg *types.Package, field string) bool {
 	if fn == nil {
 		return false
 	}
-	for _, f := range withAnon(fn) {
+	for _, f := range regionFns(fn, 3, dispatcherNames) { // the function and the helpers it calls
 		for _, b := range f.Blocks {
 			for _, ins := range b.Instrs {
 				switch x := ins.(type) {
@@ -907,63 +1014,153 @@ func readsMapValField(fn *ssa.Function, pkg *types.Package, field string) bool {
 
 // checkSetKey: the value store Pairs[key]=val is on every path to return; the
 // append to *Order is control-dependent on a failed lookup of the same key.
-func checkSetKey(p *Program, pkg *packages.Package, fd *FuncDecl, r *Reporter) {
-	sf := p.SSAFunc(fd.Obj)
-	var update *ssa.MapUpdate
-	var orderStore *ssa.Store
-	for _, b := range sf.Blocks {
-		for _, ins := range b.Instrs {
-			switch x := ins.(type) {
-			case *ssa.MapUpdate:
-				if k, _ := mapValWrite(x, pkg.Types); k != "" {
-					update = x
-				}
-			case *ssa.Store:
-				if k, _ := mapValWrite(x, pkg.Types); k == "*Order" {
-					orderStore = x
-				}
-			}
-		}
-	}
-	construct := fd.QName() + "#body"
-	if update == nil || orderStore == nil {
-		r.Viol(construct, p.Rel(fd.Decl.Pos()), "SetKey must store the value in Pairs and append new keys to *Order")
-		return
-	}
-	// update on all paths: its block post-dominates entry == every return reachable only via update block
-	if path := successPathAvoiding(sf.Blocks[0], []*ssa.BasicBlock{update.Block()}); path != "" {
-		r.Viol(construct+":store", p.Rel(instrPos(update)), "a path through SetKey returns without storing the value in Pairs")
-	} else {
-		r.Ok(construct+":store", p.Rel(instrPos(update)), "Pairs[key] = val on every path")
-	}
-	// order append guarded by !ok of lookup Pairs[key]
-	guarded := false
-	for d := orderStore.Block(); d != nil; d = d.Idom() {
-		idom := d.Idom()
-		if idom == nil || len(idom.Instrs) == 0 {
-			continue
-		}
-		ifi, ok := idom.Instrs[len(idom.Instrs)-1].(*ssa.If)
-		if !ok {
-			continue
-		}
-		// cond is the ok of a Lookup with CommaOk on Pairs; the store is on the false edge
-		if ex, ok := ifi.Cond.(*ssa.Extract); ok && ex.Index == 1 {
-			if lk, ok := ex.Tuple.(*ssa.Lookup); ok && lk.CommaOk {
-				if idom.Succs[1] == d || idom.Succs[1].Dominates(orderStore.Block()) {
-					if !idom.Succs[0].Dominates(orderStore.Block()) {
-						guarded = true
+// eventSites: where in root an event happens — the instructions of root that satisfy pred, and the calls in root of
+// helpers of the package (within two levels) in which it happens.
+func eventSites(root *ssa.Function, pred func(ssa.Instruction) bool) (sites []ssa.Instruction, actual []ssa.Instruction) {
+	region := regionFns(root, 3, dispatcherNames)
+	has := map[*ssa.Function]bool{}
+	for _, f := range region {
+		for _, b := range f.Blocks {
+			for _, ins := range b.Instrs {
+				if pred(ins) {
+					actual = append(actual, ins)
+					if f != root {
+						has[f] = true
 					}
 				}
 			}
 		}
 	}
-	r.Check(guarded, construct+":order", p.Rel(instrPos(orderStore)), "key appended to *Order only when it was not present", "SetKey appends to *Order without being guarded by a failed lookup of the key: overwriting a key would duplicate it in the order (printed twice, position lost)")
-	// the appended value is the key parameter
-	if call, ok := orderStore.Val.(*ssa.Call); ok {
-		if bi, ok := call.Call.Value.(*ssa.Builtin); ok && bi.Name() == "append" {
-			okv := derivesFromOrderLoad(call.Call.Args[0], pkg.Types)
-			r.Check(okv, construct+":order-append", p.Rel(instrPos(call)), "appends to the existing order", "the new order is not an append to the existing *Order")
+	for changed := true; changed; {
+		changed = false
+		for _, f := range region {
+			if f == root || has[f] {
+				continue
+			}
+			for _, b := range f.Blocks {
+				for _, ins := range b.Instrs {
+					if ci, ok := ins.(ssa.CallInstruction); ok && has[ci.Common().StaticCallee()] {
+						has[f] = true
+						changed = true
+					}
+				}
+			}
+		}
+	}
+	for _, b := range root.Blocks {
+		for _, ins := range b.Instrs {
+			if pred(ins) {
+				sites = append(sites, ins)
+			} else if ci, ok := ins.(ssa.CallInstruction); ok && has[ci.Common().StaticCallee()] {
+				sites = append(sites, ins)
+			}
+		}
+	}
+	return sites, actual
+}
+
+// presenceCond: v is true exactly when a key was found in mapVal.Pairs (present=true) or exactly when it was not
+// (present=false): the ok of a comma-ok look-up, its negation, or the result of a helper that returns just that.
+func presenceCond(v ssa.Value, pkg *types.Package, depth int) (present bool, ok bool) {
+	if depth > 3 {
+		return false, false
+	}
+	switch x := v.(type) {
+	case *ssa.UnOp:
+		if x.Op == token.NOT {
+			p, ok := presenceCond(x.X, pkg, depth+1)
+			return !p, ok
+		}
+	case *ssa.Extract:
+		if lk, isLk := x.Tuple.(*ssa.Lookup); isLk && lk.CommaOk && x.Index == 1 {
+			if u, isLoad := lk.X.(*ssa.UnOp); isLoad {
+				if fa, isFA := u.X.(*ssa.FieldAddr); isFA {
+					if named, name := fieldAddrInfo(fa); named != nil && named.Obj().Name() == "mapVal" && name == "Pairs" {
+						return true, true
+					}
+				}
+			}
+		}
+	case *ssa.Call:
+		sc := x.Call.StaticCallee()
+		if sc == nil || sc.Blocks == nil || sc.Pkg == nil || sc.Pkg.Pkg != pkg {
+			return false, false
+		}
+		rets := returnsOf(sc)
+		if len(rets) == 1 && len(rets[0].Results) == 1 {
+			return presenceCond(rets[0].Results[0], pkg, depth+1)
+		}
+	}
+	return false, false
+}
+
+func checkSetKey(p *Program, pkg *packages.Package, fd *FuncDecl, r *Reporter) {
+	sf := p.SSAFunc(fd.Obj)
+	updSites, _ := eventSites(sf, func(ins ssa.Instruction) bool {
+		if mu, ok := ins.(*ssa.MapUpdate); ok {
+			k, _ := mapValWrite(mu, pkg.Types)
+			return k != ""
+		}
+		return false
+	})
+	ordSites, ordStores := eventSites(sf, func(ins ssa.Instruction) bool {
+		if st, ok := ins.(*ssa.Store); ok {
+			k, _ := mapValWrite(st, pkg.Types)
+			return k == "*Order"
+		}
+		return false
+	})
+	construct := fd.QName() + "#body"
+	if len(updSites) == 0 || len(ordSites) == 0 {
+		r.Viol(construct, p.Rel(fd.Decl.Pos()), "SetKey must store the value in Pairs and append new keys to *Order")
+		return
+	}
+	var updBlocks []*ssa.BasicBlock
+	for _, u := range updSites {
+		updBlocks = append(updBlocks, u.Block())
+	}
+	if path := successPathAvoiding(sf.Blocks[0], updBlocks); path != "" {
+		r.Viol(construct+":store", p.Rel(instrPos(updSites[0])), "a path through SetKey returns without storing the value in Pairs")
+	} else {
+		r.Ok(construct+":store", p.Rel(instrPos(updSites[0])), "Pairs[key] = val on every path")
+	}
+	// every order append lies on the edge on which the key was found absent
+	guarded := true
+	for _, site := range ordSites {
+		g := false
+		for d := site.Block(); d != nil; d = d.Idom() {
+			idom := d.Idom()
+			if idom == nil || len(idom.Instrs) == 0 {
+				continue
+			}
+			ifi, ok := idom.Instrs[len(idom.Instrs)-1].(*ssa.If)
+			if !ok {
+				continue
+			}
+			present, ok := presenceCond(ifi.Cond, pkg.Types, 0)
+			if !ok {
+				continue
+			}
+			absentEdge := 1
+			if !present {
+				absentEdge = 0
+			}
+			if edgeDominates(idom, absentEdge, site.Block()) {
+				g = true
+			}
+		}
+		if !g {
+			guarded = false
+		}
+	}
+	r.Check(guarded, construct+":order", p.Rel(instrPos(ordSites[0])), "key appended to *Order only when it was not present", "SetKey appends to *Order without being guarded by a failed lookup of the key: overwriting a key would duplicate it in the order (printed twice, position lost)")
+	for _, ins := range ordStores {
+		st := ins.(*ssa.Store)
+		if call, ok := st.Val.(*ssa.Call); ok {
+			if bi, ok := call.Call.Value.(*ssa.Builtin); ok && bi.Name() == "append" {
+				okv := derivesFromOrderLoad(call.Call.Args[0], pkg.Types)
+				r.Check(okv, construct+":order-append", p.Rel(instrPos(call)), "appends to the existing order", "the new order is not an append to the existing *Order")
+			}
 		}
 	}
 }
@@ -983,44 +1180,55 @@ func derivesFromOrderLoad(v ssa.Value, pkg *types.Package) bool {
 // checkDelete: delete(Pairs,key) and a store to *Order on the path where the key was found.
 func checkDelete(p *Program, pkg *packages.Package, fd *FuncDecl, r *Reporter) {
 	sf := p.SSAFunc(fd.Obj)
-	var del *ssa.Call
-	var orderStore *ssa.Store
-	var orderStores []*ssa.Store
-	for _, b := range sf.Blocks {
-		for _, ins := range b.Instrs {
-			switch x := ins.(type) {
-			case *ssa.Call:
-				if k, _ := mapValWrite(x, pkg.Types); k == "delete(Pairs)" {
-					del = x
-				}
-			case *ssa.Store:
-				if k, _ := mapValWrite(x, pkg.Types); k == "*Order" {
-					orderStore = x
-					orderStores = append(orderStores, x)
-				}
+	delSites, _ := eventSites(sf, func(ins ssa.Instruction) bool {
+		if c, ok := ins.(*ssa.Call); ok {
+			k, _ := mapValWrite(c, pkg.Types)
+			return k == "delete(Pairs)"
+		}
+		return false
+	})
+	ordSites, ordStores := eventSites(sf, func(ins ssa.Instruction) bool {
+		if st, ok := ins.(*ssa.Store); ok {
+			k, _ := mapValWrite(st, pkg.Types)
+			return k == "*Order"
+		}
+		return false
+	})
+	for i, site := range ordSites {
+		after := false
+		for _, d := range delSites {
+			if instrDominates(d, site) {
+				after = true
 			}
 		}
-	}
-	if del != nil {
-		for i, st := range orderStores {
-			r.Check(instrDominates(del, st), fmt.Sprintf("%s#body:order-after-delete[%d]", fd.QName(), i+1), p.Rel(instrPos(st)),
+		if len(delSites) > 0 {
+			r.Check(after, fmt.Sprintf("%s#body:order-after-delete[%d]", fd.QName(), i+1), p.Rel(instrPos(site)),
 				"the key order changes only after the key was removed from the Go map",
 				"a path shortens *Order without delete(m.Pairs, key) having run: the key leaves the printed/iterated order but `has`, `len` and lookups still find it")
 		}
 	}
 	construct := fd.QName() + "#body"
-	if del == nil || orderStore == nil {
+	if len(delSites) == 0 || len(ordSites) == 0 {
 		r.Viol(construct, p.Rel(fd.Decl.Pos()), "Delete must remove the key from Pairs and from *Order")
 		return
 	}
-	// order removal reachable from the delete
-	r.Check(reachesBlock(del.Block(), orderStore.Block()), construct+":both", p.Rel(instrPos(del)), "key removed from Pairs and from *Order", "the removal from *Order is not reachable after delete(Pairs, key)")
-	// the store is a removal: append(order[:i], order[i+1:]...) — both operands are slices of the old order
-	if call, ok := orderStore.Val.(*ssa.Call); ok {
-		if bi, ok := call.Call.Value.(*ssa.Builtin); ok && bi.Name() == "append" && len(call.Call.Args) == 2 {
-			_, s1 := call.Call.Args[0].(*ssa.Slice)
-			_, s2 := call.Call.Args[1].(*ssa.Slice)
-			r.Check(s1 && s2, construct+":splice", p.Rel(instrPos(call)), "key spliced out of the order", "the order update in Delete is not a splice of the old order")
+	reach := false
+	for _, d := range delSites {
+		for _, o := range ordSites {
+			if d.Block() == o.Block() || reachesBlock(d.Block(), o.Block()) {
+				reach = true
+			}
+		}
+	}
+	r.Check(reach, construct+":both", p.Rel(instrPos(delSites[0])), "key removed from Pairs and from *Order", "the removal from *Order is not reachable after delete(Pairs, key)")
+	for _, ins := range ordStores {
+		st := ins.(*ssa.Store)
+		if call, ok := st.Val.(*ssa.Call); ok {
+			if bi, ok := call.Call.Value.(*ssa.Builtin); ok && bi.Name() == "append" && len(call.Call.Args) == 2 {
+				_, s1 := call.Call.Args[0].(*ssa.Slice)
+				_, s2 := call.Call.Args[1].(*ssa.Slice)
+				r.Check(s1 && s2, construct+":splice", p.Rel(instrPos(call)), "key spliced out of the order", "the order update in Delete is not a splice of the old order")
+			}
 		}
 	}
 }
